@@ -63,7 +63,7 @@ func (c19) Runs(tier string) int {
 	if tier == "thorough" {
 		return 120000
 	}
-	return 3000
+	return 6000
 }
 func (c19) RequiredProbes(string) []string {
 	return []string{"event_checked", "failed_request_no_event", "send_delayed_past_next_request", "filter_dropped", "batch_per_key_refusal"}
